@@ -48,6 +48,11 @@ def gen(rs, tier):
         kw["third_fourth_transformer_cap"] = r.choice([150, 150, 100, round(r.uniform(50, 220), 1)])
         if sub(rs, "equal_caps").random() < 0.12:
             kw["third_fourth_transformer_cap"] = kw["first_transformer_cap"]       # both JPL transformers of the same rating
+    rz = sub(rs, "zero_cap")
+    if rz.random() < 0.05:
+        # a transformer out of service / the last step of a de-rating sweep: a capacity of exactly 0 kW (nothing may flow through it)
+        k0 = rz.choice(sorted(k_ for k_ in kw if k_.endswith("cap")))
+        kw[k0] = rz.choice([0, 0.0])
     sc = {"seed": rs, "site": site, "site_kwargs": kw, "mode": "sim" if rs % 6 == 0 else "climb", "json_restart": r.random() < 0.3,
           "site_alias": site == "caltech" and sub(rs, "alias").random() < 0.3,
           "climbs": r.randint(2, 4), "sort": r.choice(["fcfs", "lcfs", "llf", "edf", "lrpt"])}
@@ -71,10 +76,12 @@ def check_schedule(out, nw, site, kw, ids, vec, tag, feasible_known=None):
     ratios = {}
     for name, members, cap in groups_of(site, ids, kw):
         P = sum(V_LL * vec[idx[s]] for s in members)
-        ratios[name] = P / (cap * 1000.0)
-        if P > cap * 1000.0 * (1 + 1e-6) + 1e-6:
+        # (absolute slack: the feasibility check itself allows each line current its violation tolerance of 1e-5 A; three lines at 120 V)
+        slack = 1e-6 + 3 * 120 * 2e-5
+        ratios[name] = P / (cap * 1000.0) if cap else (0.0 if P <= slack else float("inf"))
+        if P > cap * 1000.0 * (1 + 1e-6) + slack:
             out.add("C16/transformer_power", "%s %s: schedule reported feasible draws %.1f W through %s rated %.1f kW (ratio %.4f) [%s]"
-                    % (site, kw, P, name, cap, P / (cap * 1000.0), tag))
+                    % (site, kw, P, name, cap, ratios[name], tag))
             return ratios
     # pods / sub-panels / panels from external truth
     ang = nw._phase_angles
